@@ -42,6 +42,8 @@ def generate(rng, tier, rep):
                     parked.remove(k)
                     rel = [k]
                 specs.append({'api': api, 'name': name, 'hold': hold, 'release': rel})
+                if api == 'threading' and rng.random() < 0.25:
+                    specs[-1]['falsy'] = True    # a Thread subclass whose instances are falsy
                 if api == '_thread' and rng.random() < 0.5:
                     specs[-1]['cur'] = True      # the thread calls threading.current_thread() (as logging does)
                 if hold:
